@@ -65,8 +65,8 @@ def judge(op: L.Op, call, sp=None):
         k += ":nonzero-scan-input-axes"  # (a family of its own: the constructor slices axis 0 whatever the attribute says)
     if k is not None and k.startswith("types-differ:"):
         given = set()
-        for v in call["vars"]:
-            L.dim_params(v["ty"], given)
+        for v in _present_vars(call):
+            L.dim_params(call["vars"][v]["ty"], given)
         if any(d.startswith("unk__") for d in given):
             # a family of its own: the caller's own dimension name looks like a generated one and is stripped with them
             k = "types-differ:user-dim-named-unk__"
